@@ -61,6 +61,8 @@ Qed.
 
 Lemma leb_0_of_nat n : (0 <=? Z.of_nat n)%Z = true. Proof. lia. Qed.
 
+#[global] Arguments Interp.run : simpl never.
+#[global] Arguments gpb_body : simpl never.
 #[global] Arguments enc_b : simpl never.
 #[global] Arguments enc_i : simpl never.
 #[global] Arguments enc_p : simpl never.
@@ -124,46 +126,84 @@ Lemma ifk_false ext t f st : ifk ext t f (VBool false) st = exec ext f st. Proof
 #[global] Arguments then_ : simpl never.
 #[global] Arguments ifk : simpl never.
 
+Ltac rstep :=
+  match goal with
+  | |- context [getitem _ _ _] => unfold getitem
+  | |- context [method (enc_b _) _ _] => rewrite method_enc_b
+  | |- context [method (enc_i _) _ _] => rewrite method_enc_i
+  | |- context [method (enc_p _) _ _] => rewrite method_enc_p
+  | |- context [attribute _ (enc_p _) _ _] => rewrite attribute_enc_p
+  | |- context [attribute _ (enc_i _) _ _] => rewrite attribute_enc_i
+  | |- context [foreign (enc_i _)] => rewrite foreign_enc_i
+  | |- context [foreign (enc_b _)] => rewrite foreign_enc_b
+  | |- context [foreign (enc_p _)] => rewrite foreign_enc_p
+  | |- context [subscript (enc_i _) (VTuple _) _] => rewrite subscript_enc_i_t
+  | |- context [subscript (enc_b _) (VTuple _) _] => rewrite subscript_enc_b_t
+  | |- context [subscript (enc_p _) (VTuple _) _] => rewrite subscript_enc_p_t
+  | |- context [subscript (enc_i _) (VInt _) _] => rewrite subscript_enc_i_z
+  | |- context [binop_eval Sub (enc_i _) (enc_i _) _] => rewrite binop_sub_ii
+  | |- context [binop_eval Sub (enc_i _) (VInt _) _] => rewrite binop_sub_iz
+  | |- context [binop_eval Add (enc_i _) (enc_i _) _] => rewrite binop_add_ii
+  | |- context [binop_eval BitAnd (enc_b _) (enc_b _) _] => rewrite binop_and_bb
+  | |- context [binop_eval Add (VTuple _) (VTuple _) _] => rewrite binop_add_tt
+  | |- context [operand (enc_i _)] => rewrite operand_enc_i
+  | |- context [operand (VInt _)] => rewrite operand_int
+  | |- context [operand (VTuple (VInt _ :: _))] => rewrite operand_ints
+  | |- context [as_index (VInt _)] => rewrite as_index_int
+  | |- context [as_index (enc_i (mkTn [] [_]))] => rewrite as_index_scalar
+  | |- context [as_size (VInt (Z.of_nat _))] => rewrite as_size_nat
+  | |- context [as_size (enc_i (mkTn [] [Z.of_nat _]))] => rewrite as_size_scalar
+  | |- context [as_size (VInt 1)] => rewrite as_size_1
+  | |- context [extreme_of true [VInt _; VInt _] _] => rewrite extreme_max2
+  | |- context [extreme_of true [VInt _; VInt _; VInt _] _] => rewrite extreme_max3
+  | |- context [dec_any (enc_b _)] => rewrite dec_any_enc_b
+  | |- context [dec_any (enc_i _)] => rewrite dec_any_enc_i
+  | |- context [dec_any (enc_p _)] => rewrite dec_any_enc_p
+  | |- context [dec_any (VTuple (VInt _ :: _))] => rewrite dec_any_ints
+  | |- context [Z.max (Z.of_nat _) (Z.of_nat _)] => rewrite <- Nat2Z.inj_max
+  | |- context [Z.leb 0 (Z.of_nat _)] => rewrite leb_0_of_nat
+  | |- context [Z.to_nat (Z.of_nat _)] => rewrite Nat2Z.id
+  | |- context [Nat.eqb ?a ?a] => rewrite Nat.eqb_refl
+  | |- context [Z.eqb ?a ?a] => rewrite Z.eqb_refl
+  | |- context [unsqueeze (mkTn [_] _) 1] => rewrite unsqueeze_1_1
+  | |- context [unsqueeze (mkTn [_; _] _) 2] => rewrite unsqueeze_2_2
+  | |- context [unsqueeze (mkTn [_; _; _] _) (-1)] => rewrite unsqueeze_3_m1
+  | |- context [flatten_from (mkTn [_; _; _; 1%nat] _) 2] => rewrite flatten_4_2
+  | |- context [view (mkTn [?n] _) [?n; 1%nat; 1%nat]] => rewrite view_n11
+  | |- context [view (mkTn ?s _) ?s] => rewrite view_same
+  | |- context [arange (Z.of_nat _)] => rewrite arange_nat
+  | |- context [expand3 _ (mkTn [?n; ?m; 1%nat] (tab2 ?n ?m _)) [?n; ?m; _]] => rewrite expand3_last
+  | |- context [expand3 _ (mkTn [?n; 1%nat; ?k] (tab3 ?n 1%nat ?k _)) [?n; _; ?k]] => rewrite expand3_mid
+  | |- context [expand3 _ (mkTn [?n; 1%nat; 1%nat] (tab1 ?n _)) [?n; _; _]] => rewrite expand3_n11
+  | |- context [expand3 _ (mkTn [?n; ?m; ?k] (tab3 ?n ?m ?k _)) [?n; ?m; ?k]] => rewrite expand3_id
+  | |- context [slice1 (mkTn [?n] (tab1 ?n _)) _] => rewrite slice1_tab1
+  | |- context [slice3_1 _ (mkTn [?n; ?m; ?c] (tab3 ?n ?m ?c _)) _] => rewrite slice3_1_tab3
+  | |- context [select0 (mkTn [2%nat; ?m] (tab2 2%nat ?m _)) 0%nat] => rewrite select0_tab2_0
+  | |- context [select0 (mkTn [2%nat; ?m] (tab2 2%nat ?m _)) 1%nat] => rewrite select0_tab2_1
+  | |- context [ew2 _ _ _ (mkTn [?n] (tab1 ?n _)) (mkTn [?n] (tab1 ?n _))] => rewrite ew2_same1
+  | |- context [ew2 _ _ _ (mkTn [?n; 1%nat] (tab1 ?n _)) (mkTn [?w] (tab1 ?w _))] => rewrite ew2_outer
+  | |- context [ew_s _ (mkTn _ (tab1 _ _)) _] => rewrite ew_s_tab1
+  | |- context [ew_s _ (mkTn _ (tab2 _ _ _)) _] => rewrite ew_s_tab2
+  | |- context [clamp_min (mkTn _ (tab2 _ _ _)) _] => rewrite clamp_min_tab2
+  | |- context [sum0 (mkTn [2%nat; ?m] (tab2 2%nat ?m _))] => rewrite sum0_tab2_2
+  | |- context [bnot (mkTn _ (tab3 _ _ _ _))] => rewrite bnot_tab3
+  | |- context [band (mkTn ?s (tab3 ?n ?m ?k _)) (mkTn ?s (tab3 ?n ?m ?k _))] => rewrite band_tab3
+  | |- context [any_true (mkTn _ (tab1 _ _))] => rewrite any_true_tab1
+  | |- context [masked_select (mkTn ?s _) (mkTn ?s _)] => rewrite masked_select_same
+  | |- context [masked_scatter (mkTn ?s _) (mkTn ?s _) _] => rewrite masked_scatter_same
+  | |- context [full [_; _; _] _] => rewrite full_3
+  end.
+
 Ltac tstep :=
   cbn;
   change (Z.of_nat 3) with 3%Z; change (Z.of_nat 2) with 2%Z; change (Z.of_nat 1) with 1%Z; change (Z.of_nat 0) with 0%Z;
   change (Z.to_nat 0) with 0%nat; change (Z.to_nat 1) with 1%nat; change (Z.to_nat 2) with 2%nat;
   change (Pos.to_nat 1) with 1%nat; change (Pos.to_nat 2) with 2%nat; change (Pos.to_nat 3) with 3%nat;
-  try unfold getitem;
-  try match goal with |- context [method _ _ _] => rewrite ?method_enc_b, ?method_enc_i, ?method_enc_p end;
-  try match goal with |- context [attribute _ _ _ _] => rewrite ?attribute_enc_p, ?attribute_enc_i end;
-  try match goal with |- context [foreign _] => rewrite ?foreign_enc_i, ?foreign_enc_b, ?foreign_enc_p end;
-  try match goal with |- context [subscript _ _ _] =>
-        rewrite ?subscript_enc_i_t, ?subscript_enc_b_t, ?subscript_enc_p_t, ?subscript_enc_i_z end;
-  try match goal with |- context [binop_eval _ _ _ _] =>
-        rewrite ?binop_sub_ii, ?binop_sub_iz, ?binop_add_ii, ?binop_and_bb, ?binop_add_tt end;
-  try match goal with |- context [operand _] => rewrite ?operand_enc_i, ?operand_int, ?operand_ints end;
-  try match goal with |- context [as_index _] => rewrite ?as_index_int, ?as_index_scalar end;
-  try match goal with |- context [as_size _] => rewrite ?as_size_nat, ?as_size_scalar, ?as_size_1 end;
-  try match goal with |- context [extreme_of _ _ _] => rewrite ?extreme_max2, ?extreme_max3 end;
-  try match goal with |- context [dec_any _] => rewrite ?dec_any_enc_b, ?dec_any_enc_i, ?dec_any_enc_p, ?dec_any_ints end;
-  try match goal with |- context [Z.leb 0 (Z.of_nat _)] => rewrite ?leb_0_of_nat end;
-  try match goal with |- context [Z.to_nat (Z.of_nat _)] => rewrite ?Nat2Z.id end;
-  try match goal with |- context [Nat.eqb ?a ?a] => rewrite ?Nat.eqb_refl end;
-  try match goal with |- context [Z.eqb ?a ?a] => rewrite ?Z.eqb_refl end;
-  try match goal with |- context [unsqueeze _ _] => rewrite ?unsqueeze_1_1, ?unsqueeze_2_2, ?unsqueeze_3_m1 end;
-  try match goal with |- context [flatten_from _ _] => rewrite ?flatten_4_2 end;
-  try match goal with |- context [view _ _] => rewrite ?view_n11, ?view_same end;
-  try match goal with |- context [arange _] => rewrite ?arange_nat end;
-  try match goal with |- context [expand3 _ _ _] => rewrite ?expand3_last, ?expand3_mid, ?expand3_n11, ?expand3_id end;
-  try match goal with |- context [slice1 _ _] => rewrite ?slice1_tab1 end;
-  try match goal with |- context [slice3_1 _ _ _] => rewrite ?slice3_1_tab3 end;
-  try match goal with |- context [select0 _ _] => rewrite ?select0_tab2_0, ?select0_tab2_1 end;
-  try match goal with |- context [ew2 _ _ _ _ _] => rewrite ?ew2_same1, ?ew2_outer end;
-  try match goal with |- context [ew_s _ _ _] => rewrite ?ew_s_tab1, ?ew_s_tab2 end;
-  try match goal with |- context [clamp_min _ _] => rewrite ?clamp_min_tab2 end;
-  try match goal with |- context [sum0 _] => rewrite ?sum0_tab2_2 end;
-  try match goal with |- context [bnot _] => rewrite ?bnot_tab3 end;
-  try match goal with |- context [band _ _] => rewrite ?band_tab3 end;
-  try match goal with |- context [any_true _] => rewrite ?any_true_tab1 end;
-  try match goal with |- context [masked_select _ _] => rewrite ?masked_select_same end;
-  try match goal with |- context [masked_scatter _ _ _] => rewrite ?masked_scatter_same end;
-  try match goal with |- context [full _ _] => rewrite ?full_3 end.
+  repeat rstep.
+
+(* the same, also using hypotheses  Nat.min a b = c  of the context (sizes of slices) *)
+Ltac tstepH := tstep; repeat match goal with H : Nat.min ?a ?b = _ |- context [Nat.min ?a ?b] => rewrite H end.
+Ltac go := repeat (progress tstepH).
 
 Ltac open_seq :=
   rewrite exec_seq';
@@ -171,7 +211,7 @@ Ltac open_seq :=
 Ltac norm_state := unfold set_var; cbn [update vars events String.eqb Ascii.eqb Bool.eqb].
 Ltac close_stmt :=
   norm_state; rewrite then_normal; match goal with H : ?r = _ |- context [exec _ ?r _] => subst r end.
-Ltac stmt := open_seq; repeat (progress tstep).
+Ltac stmt := open_seq; go.
 Ltac open_if :=
   rewrite exec_if';
   match goal with |- context [ifk _ ?t ?f] =>
